@@ -92,6 +92,7 @@ def stack(ctx, layers, ops):
     cleanup = []
     sink = []
     owners = []
+    emitted = []
     try:
         for i, kind in enumerate(layers):
             below = top
@@ -139,6 +140,8 @@ def stack(ctx, layers, ops):
                        for L, *_ in loggers}
                 sink.clear()
                 top.demand = v
+                for r in sink:  # remember what each record carried when it was emitted
+                    emitted.append((r["record"], dict(r["record"].args) if isinstance(r["record"].args, dict) else None))
                 for L, idx, level, expected in loggers:
                     above = layers[idx + 1:]
                     recs = [r for r in sink if r["logger"] is L]
@@ -176,6 +179,11 @@ def stack(ctx, layers, ops):
             if transparent:
                 ctx.require(same(top.demand, pool.demand), tag + "demand read passes through plain decorators and Loggers")
             ctx.observe(tag + "pool.demand", pool.demand)
+        # records are kept by handlers (MemoryHandler, caplog): later writes must not change earlier records
+        for rec, snap in emitted:
+            ctx.require(snap is not None and isinstance(rec.args, dict) and list(rec.args) == list(snap)
+                        and all(rec.args[k] is snap[k] for k in snap),
+                        "a record keeps the values it was emitted with")
         ctx.reach()
     finally:
         for lg, h, old in cleanup:
@@ -220,7 +228,7 @@ def extra(tier, seed):
             Logger(p, message=m)
         except Exception as e:
             errs.append(v("valid template rejected (%s)" % type(e).__name__, m))
-    for m in BAD:
+    for m in BAD + BAD[:4]:  # and once more: a rejection must not be remembered as an acceptance
         try:
             Logger(p, message=m)
             errs.append(v("template with unknown field accepted", m))
